@@ -327,6 +327,156 @@ pub fn check_scenario(ctx: &mut Ctx, sc: &Scenario) -> Result<(), String> {
     Ok(())
 }
 
+// ------------------------------------------------------------------ shipped stores: ceremonies that fail by themselves
+
+/// operations on an authenticator over a shipped store; failures come from the requests themselves (a refused user,
+/// an excluded credential, an unsupported algorithm, a PRF request the credential cannot serve, a key handle
+/// that is registered again) rather than from an injected store fault
+#[derive(Clone, Debug, Serialize, Deserialize, PartialEq, Eq, Hash)]
+pub enum SOp {
+    U2fRegister { handle: u8, app: u8 },
+    Create { exclude_hit: bool, alg_supported: bool, deny: bool, rk: bool },
+    Assert { target: u8, prf: bool, deny: bool },
+}
+
+#[derive(Clone, Debug, Serialize, Deserialize, PartialEq, Eq, Hash)]
+pub struct Shipped {
+    /// 0 MemoryStore, 1 Option slot
+    pub store: u8,
+    pub counter_cfg: bool,
+    pub hmac: HmacCfg,
+    pub ops: Vec<SOp>,
+}
+
+fn same_but_counter(a: &PkSnap, b: &PkSnap) -> bool {
+    let mut b2 = b.clone();
+    b2.counter = a.counter;
+    *a == b2
+}
+
+fn run_shipped<S: crate::ceremony::StoreAccess>(ctx: &mut Ctx, store: S, single_slot: bool, c: &Shipped) -> Result<(), String> {
+    let uv = ScriptedUv::new(UvScript::verified());
+    let mut auth = cer::build_authenticator(store, uv.clone(), &AuthCfg { counter: c.counter_cfg, hmac: c.hmac, ..Default::default() });
+    let mut sorted = |v: Vec<PkSnap>| {
+        let mut v = v;
+        v.sort_by(|a, b| (&a.id, &a.rp_id).cmp(&(&b.id, &b.rp_id)));
+        v
+    };
+    for (i, op) in c.ops.iter().enumerate() {
+        let before = sorted(auth.store().snapshot());
+        ctx.eval();
+        match op {
+            SOp::U2fRegister { handle, app } => {
+                let handle: Vec<u8> = format!("c07-key-handle-{}", handle % 3).into_bytes();
+                let application = sha256(&[b"c07-app-", &[app % 2][..]].concat());
+                let res = crate::rt::block_on(U2fApi::register(&mut auth, RegisterRequest { challenge: [7; 32], application }, &handle));
+                let after = sorted(auth.store().snapshot());
+                let again = before.iter().any(|p| p.id == handle);
+                ctx.class(&format!("shipped/u2f-register/{}{}", if res.is_ok() { "ok" } else { "err" }, if again { "/handle-registered-before" } else { "" }));
+                match res {
+                    Err(e) => {
+                        if after != before {
+                            return Err(format!("op #{i}: U2F registration failed with {e:?} but the store changed (a key handle registered before: {again})"));
+                        }
+                    }
+                    Ok(resp) => {
+                        let new: Vec<&PkSnap> = after.iter().filter(|a| !before.contains(a)).collect();
+                        let gone: Vec<&PkSnap> = before.iter().filter(|b| !after.contains(b)).collect();
+                        if new.len() != 1 || new[0].id != handle || is_complete_record(new[0]).is_err() {
+                            return Err(format!("op #{i}: a successful U2F registration must leave exactly one complete new record for the key handle: {} new records", new.len()));
+                        }
+                        if new[0].x.as_deref() != Some(&resp.public_key.x[..]) || new[0].y.as_deref() != Some(&resp.public_key.y[..]) {
+                            return Err(format!("op #{i}: the record stored by a successful U2F registration does not hold the returned key"));
+                        }
+                        if !single_slot && gone.iter().any(|g| g.id != handle) {
+                            return Err(format!("op #{i}: a U2F registration removed or altered a record of another key handle"));
+                        }
+                    }
+                }
+            }
+            SOp::Create { exclude_hit, alg_supported, deny, rk } => {
+                uv.set(if *deny { UvScript { outcome: Err(0x27), ..UvScript::verified() } } else { UvScript::verified() });
+                let exclude = exclude_hit.then(|| before.iter().filter(|p| p.rp_id == RP).map(|p| cer::descriptor(&p.id)).take(2).collect::<Vec<_>>());
+                let req = make_credential::Request {
+                    client_data_hash: vec![5u8; 32].into(),
+                    rp: make_credential::PublicKeyCredentialRpEntity { id: RP.into(), name: None },
+                    user: passkey_types::webauthn::PublicKeyCredentialUserEntity { id: b"c07-user".to_vec().into(), display_name: "d".into(), name: "n".into() },
+                    pub_key_cred_params: cer::params(if *alg_supported { &[-7] } else { &[-257] }),
+                    exclude_list: exclude.filter(|l| !l.is_empty()),
+                    extensions: None,
+                    options: make_credential::Options { rk: *rk, up: true, uv: true },
+                    pin_auth: None,
+                    pin_protocol: None,
+                };
+                let res = crate::rt::block_on(auth.make_credential(req));
+                let after = sorted(auth.store().snapshot());
+                ctx.class(&format!("shipped/create/{}", if res.is_ok() { "ok" } else { "err" }));
+                match res {
+                    Err(e) => {
+                        if after != before {
+                            return Err(format!("op #{i}: registration failed with 0x{:02X} but the store changed", u8::from(e)));
+                        }
+                    }
+                    Ok(_) => {
+                        let new: Vec<&PkSnap> = after.iter().filter(|a| !before.contains(a)).collect();
+                        if new.len() != 1 || is_complete_record(new[0]).is_err() {
+                            return Err(format!("op #{i}: a successful registration must add exactly one complete record, found {}", new.len()));
+                        }
+                        if !single_slot && before.iter().any(|b| !after.contains(b)) {
+                            return Err(format!("op #{i}: a registration removed or altered an existing record"));
+                        }
+                    }
+                }
+            }
+            SOp::Assert { target, prf, deny } => {
+                uv.set(if *deny { UvScript { outcome: Err(0x27), ..UvScript::verified() } } else { UvScript::verified() });
+                let mine: Vec<&PkSnap> = before.iter().filter(|p| p.rp_id == RP).collect();
+                let allow = (!mine.is_empty()).then(|| vec![cer::descriptor(&mine[*target as usize % mine.len()].id)]);
+                let ext = prf.then(|| get_assertion::ExtensionInputs { hmac_secret: None, prf: Some(AuthenticatorPrfInputs { eval: Some(AuthenticatorPrfValues { first: [3u8; 32], second: None }), eval_by_credential: None }) });
+                let req = get_assertion::Request { rp_id: RP.into(), client_data_hash: vec![6u8; 32].into(), allow_list: allow, extensions: ext, options: get_assertion::Options { rk: false, up: true, uv: true }, pin_auth: None, pin_protocol: None };
+                let res = crate::rt::block_on(auth.get_assertion(req));
+                let after = sorted(auth.store().snapshot());
+                ctx.class(&format!("shipped/assert/{}", if res.is_ok() { "ok" } else { "err" }));
+                if after.len() != before.len() {
+                    return Err(format!("op #{i}: an authentication changed the number of records"));
+                }
+                let changed: Vec<(&PkSnap, &PkSnap)> = before.iter().zip(after.iter()).filter(|(b, a)| b != a).collect();
+                if changed.len() > 1 {
+                    return Err(format!("op #{i}: an authentication changed {} records", changed.len()));
+                }
+                if let Some((b, a)) = changed.first() {
+                    let advanced = match (b.counter, a.counter) {
+                        (Some(x), Some(y)) => y == x.saturating_add(1),
+                        _ => false,
+                    };
+                    if !same_but_counter(b, a) || !advanced {
+                        return Err(format!("op #{i}: an authentication ({}) altered a stored record beyond advancing its counter by one: counter {:?} -> {:?}, other fields equal = {}", if res.is_ok() { "successful" } else { "failed" }, b.counter, a.counter, same_but_counter(b, a)));
+                    }
+                }
+            }
+        }
+    }
+    ctx.nontrivial(c);
+    Ok(())
+}
+
+pub fn check_shipped(ctx: &mut Ctx, c: &Shipped) -> Result<(), String> {
+    ctx.sample(&format!("shipped/store{}", c.store % 2), || json!(c));
+    match c.store % 2 {
+        0 => run_shipped(ctx, passkey_authenticator::MemoryStore::new(), false, c),
+        _ => run_shipped(ctx, None::<passkey_types::Passkey>, true, c),
+    }
+}
+
+fn shipped() -> impl Strategy<Value = Shipped> {
+    let op = prop_oneof![
+        3 => (any::<u8>(), any::<u8>()).prop_map(|(handle, app)| SOp::U2fRegister { handle, app }),
+        3 => (proptest::bool::weighted(0.3), proptest::bool::weighted(0.8), proptest::bool::weighted(0.15), any::<bool>()).prop_map(|(exclude_hit, alg_supported, deny, rk)| SOp::Create { exclude_hit, alg_supported, deny, rk }),
+        4 => (any::<u8>(), proptest::bool::weighted(0.4), proptest::bool::weighted(0.15)).prop_map(|(target, prf, deny)| SOp::Assert { target, prf, deny }),
+    ];
+    (0u8..2, any::<bool>(), prop_oneof![Just(HmacCfg::None), Just(HmacCfg::UvOnly), Just(HmacCfg::WithoutUvMc)], proptest::collection::vec(op, 1..12)).prop_map(|(store, counter_cfg, hmac, ops)| Shipped { store, counter_cfg, hmac, ops })
+}
+
 pub fn check_run(ctx: &mut Ctx, run: &Run) -> Result<(), String> {
     let o = execute(run)?;
     ctx.eval();
@@ -339,7 +489,7 @@ pub fn check_run(ctx: &mut Ctx, run: &Run) -> Result<(), String> {
 
 pub fn run(ctx: &mut Ctx) {
     ctx.level = "fault_enumeration";
-    ctx.rule = "scenarios = generated product of operation (create / assert / U2F register at the authenticator API, create / assert through Client) x hmac-secret config x counter setting x store capability x rk/up/uv x user-validation outcome and suspensions x algorithm support x pin-auth x exclude/allow list (none, miss, hit) x PRF request x selected credential's counter and secrets x store suspensions. For every scenario: the fault-free run, EVERY fallible store call (find/save/update) of that run failing with each status of {0x00,0x01,0x2E,0x28,0x7F,0xF2,0x19} singly, and cancellation (drop) after EVERY number of polls 0..total; plus generated combinations of 2-3 faults with cancellation. Non-trivial = a run in which a fault was planned or the operation was dropped; distinct by run.".into();
+    ctx.rule = "scenarios = generated product of operation (create / assert / U2F register at the authenticator API, create / assert through Client) x hmac-secret config x counter setting x store capability x rk/up/uv x user-validation outcome and suspensions x algorithm support x pin-auth x exclude/allow list (none, miss, hit) x PRF request x selected credential's counter and secrets x store suspensions. For every scenario: the fault-free run, EVERY fallible store call (find/save/update) of that run failing with each status of {0x00,0x01,0x2E,0x28,0x7F,0xF2,0x19} singly, and cancellation (drop) after EVERY number of polls 0..total; plus generated combinations of 2-3 faults with cancellation; plus histories on the shipped MemoryStore and Option slot whose ceremonies fail by themselves (refused user, excluded credential, unsupported algorithm, PRF the credential cannot serve, U2F key handles registered again), judged by store snapshots before/after. Non-trivial = a run in which a fault was planned or the operation was dropped; distinct by run.".into();
     ctx.assumptions = vec![
         "suspension points are the ones the public traits offer: user validation and every store call (the doubles suspend a generated number of times)".into(),
         "get_info of the store cannot fail (it returns no Result)".into(),
@@ -363,9 +513,18 @@ pub fn run(ctx: &mut Ctx) {
         Search::Pass => {}
         Search::Fail(r, msg) => ctx.violation("combinations", json!(r), &msg),
     }
+    let n = ctx.tier.pick(2_500u32, 1_000_000u32);
+    match search(ctx, 27, n, shipped(), check_shipped) {
+        Search::Pass => {}
+        Search::Fail(c, msg) => ctx.violation("shipped", json!(c), &msg),
+    }
 }
 
 pub fn replay(ctx: &mut Ctx, stage: &str, case: &Value) -> Result<(), String> {
+    if stage == "shipped" {
+        let c: Shipped = serde_json::from_value(case.clone()).map_err(|e| format!("bad case: {e}"))?;
+        return check_shipped(ctx, &c);
+    }
     if stage == "enumeration-scenario" {
         let sc: Scenario = serde_json::from_value(case.clone()).map_err(|e| format!("bad case: {e}"))?;
         check_scenario(ctx, &sc)
